@@ -4,10 +4,13 @@ mod codec_table;
 mod dump;
 mod fields;
 mod gen_instrs;
+mod mkmod;
 mod opfields;
 mod oprt;
 mod roundtrip;
+mod script;
 mod template;
+mod witness;
 
 use std::any::Any;
 use std::process::exit;
@@ -43,7 +46,7 @@ pub fn panic_message(p: &Box<dyn Any + Send>) -> String {
 
 fn usage() -> ! {
     eprintln!(
-        "usage:\n  vreplay codec-table\n  vreplay op-roundtrip <witness.json> [--emit-wasm <out.wasm>]\n  vreplay roundtrip <file.wasm|file.wat> [--gc] [--no-names] [--no-producers] [--twice]"
+        "usage:\n  vreplay codec-table\n  vreplay op-roundtrip <witness.json> [--emit-wasm <out.wasm>]\n  vreplay roundtrip <file.wasm|file.wat> [--gc] [--no-names] [--no-producers] [--twice]\n  vreplay build <spec.json> -o <out.wasm>\n  vreplay script <script.json>\n  vreplay consts"
     );
     exit(2)
 }
@@ -138,6 +141,50 @@ fn main() {
                 Ok(v) => println!("{}", serde_json::to_string_pretty(&v).unwrap()),
                 Err(e) => {
                     eprintln!("vreplay roundtrip: {}", e);
+                    exit(2);
+                }
+            }
+        }
+        "build" => {
+            let mut spec = None;
+            let mut out = None;
+            let mut i = 1;
+            while i < args.len() {
+                match args[i].as_str() {
+                    "-o" | "--output" => {
+                        i += 1;
+                        out = Some(args.get(i).cloned().unwrap_or_else(|| usage()));
+                    }
+                    a if a.starts_with('-') => usage(),
+                    a => {
+                        if spec.is_some() {
+                            usage();
+                        }
+                        spec = Some(a.to_string());
+                    }
+                }
+                i += 1;
+            }
+            let (spec, out) = match (spec, out) {
+                (Some(s), Some(o)) => (s, o),
+                _ => usage(),
+            };
+            match mkmod::run(&spec, &out) {
+                Ok(n) => eprintln!("vreplay build: wrote {} bytes to {}", n, out),
+                Err(e) => {
+                    eprintln!("vreplay build: {}", e);
+                    exit(2);
+                }
+            }
+        }
+        "script" => {
+            if args.len() != 2 {
+                usage();
+            }
+            match script::run(&args[1]) {
+                Ok(v) => println!("{}", serde_json::to_string_pretty(&v).unwrap()),
+                Err(e) => {
+                    eprintln!("vreplay script: {}", e);
                     exit(2);
                 }
             }
